@@ -165,12 +165,24 @@ pub(super) fn sub2(a: &mut [BigDigit], b: &[BigDigit]) {
     let (b, done) = (false, 0);
 
     let mut borrow = b as u8;
+    if done > 0 {
+        verif_probe!(SubAsmEntered);
+        if b {
+            verif_probe!(SubAsmBorrowOut);
+        }
+        if done < len {
+            verif_probe!(SubTailAfterAsm);
+        }
+    }
 
     for (a, b) in a_lo[done..].iter_mut().zip(b_lo[done..].iter()) {
         borrow = sbb(borrow, *a, *b, a);
     }
 
     if borrow != 0 {
+        if !a_hi.is_empty() {
+            verif_probe!(SubBorrowIntoHi);
+        }
         for a in a_hi {
             borrow = sbb(borrow, *a, 0, a);
             if borrow == 0 {
@@ -179,6 +191,9 @@ pub(super) fn sub2(a: &mut [BigDigit], b: &[BigDigit]) {
         }
     }
 
+    if borrow != 0 {
+        verif_probe!(SubUnderflow);
+    }
     // note: we're _required_ to fail on underflow
     assert!(
         borrow == 0 && b_hi.iter().all(|x| *x == 0),
@@ -243,9 +258,11 @@ impl Sub<BigUint> for &BigUint {
     fn sub(self, mut other: BigUint) -> BigUint {
         let other_len = other.data.len();
         if other_len < self.data.len() {
+            verif_probe!(SubRevShortOther);
             let lo_borrow = __sub2rev(&self.data[..other_len], &mut other.data);
             other.data.extend_from_slice(&self.data[other_len..]);
             if lo_borrow != 0 {
+                verif_probe!(SubRevShortOtherBorrow);
                 sub2(&mut other.data[other_len..], &[1])
             }
         } else {
